@@ -53,6 +53,7 @@ CLAUSES = {
     "PlotLoaderReadsFile": ("C15",),
     "CsvExportExact": ("C15",),
     "QueriesReturnRightColumns": ("C15",),
+    "InMemoryPlotterShowsTheRun": ("C15",),
     "FileHasOneRowPerKeptStep": ("C15",),
     "ReplayFromCsvReproduces": ("C15",),
     "OneRowPerStep": ("C15",),
